@@ -107,6 +107,9 @@ func (p *Unsubscribe) UnmarshalBinary(data []byte) error {
 	for {
 		var f wstring
 		b.get(&f)
+		if b.err != nil {
+			break
+		}
 		p.filters = append(p.filters, f)
 		if b.i == len(data) {
 			break
